@@ -418,6 +418,11 @@ def run_property(mod, ctx, replay_path=None):
     except Exception as e:  # pylint: disable=broad-except
       props_log = "prop_theorems failed: %r" % (e,)
   obligations = len(names)
+  coqchk_summary = None
+  if ctx.tier == "thorough" and ok_build:
+    rc_chk, out_chk = run(["coqchk", "-silent", "-o", "-Q", COQ, "TFL", "TFL.Props.%s" % pid], 3000)
+    i = out_chk.find("CONTEXT SUMMARY")
+    coqchk_summary = {"exit": rc_chk, "summary": out_chk[i:i + 3000] if i >= 0 else out_chk[-1500:]}
   discharged = len([n for n in names if n in assum and assum[n] != "(not printed)"]) if ok_props else 0
 
   # 2. cases on the implementation
@@ -490,6 +495,8 @@ def run_property(mod, ctx, replay_path=None):
     broken.append("Props/%s.v did not compile or misses Print Assumptions" % pid)
   if coq_errors:
     broken.append("correspondence shards failed to evaluate: %s" % coq_errors[:2])
+  if coqchk_summary is not None and coqchk_summary["exit"] != 0:
+    broken.append("coqchk rejected the compiled closure of Props/%s.vo" % pid)
   if bad_cases:
     i = min(bad_cases, key=shrink_key)
     broken.append("model and implementation disagree on %d case(s), e.g. case %d" % (len(bad_cases), i))
@@ -552,6 +559,7 @@ def run_property(mod, ctx, replay_path=None):
       "limits": list(getattr(mod, "LIMITS", [])),
       "exhaustive": bool(extra_stats.get("exhaustive", False)),
       "build_ok": ok_build,
+      "coqchk": coqchk_summary,
   }
   coverage.update({k: v for k, v in extra_stats.items() if k != "exhaustive"})
   assumptions = list(getattr(mod, "ASSUMPTIONS", [])) + [
